@@ -1064,7 +1064,7 @@ def safe_unit(part: Part, gen: TGen, name: str, ser, de):
             before = head + "".join(f + g for _, f, g in pieces[:k])
             after = gap + "".join(f + g for _, f, g in pieces[k + 1:])
             for site, newfrag, would in variants:
-                check_safe(part, site, name, before + newfrag + after, bname, i, vn, would)
+                check_safe(part, site, name, before + newfrag + after, bname, i, vn, would, newfrag)
         part.mark_nontrivial(("safe", name, beautify))
 
 
@@ -1075,19 +1075,19 @@ def safe_site(tag: str) -> str:
     return tag if parts[0] == "operator" else f"expression-under:{parts[-1]}"
 
 
-def check_safe(part: Part, tag: str, name: str, text: str, bname: str, idx: int, vn: str, would: Any):
+def check_safe(part: Part, tag: str, name: str, text: str, bname: str, idx: int, vn: str, would: Any, frag: str = ""):
     part.count("evaluations")
     part.count("safe_mode_evaluations")
     sentinel = Sentinel()
     site = safe_site(tag)
     repl = {"SENTINEL": sentinel, "NULL_KEY": UUID(), "RANDOM_KEY": sentinel}
     witness = {"kind": "safe", "name": name, "text": text, "block": bname, "index": idx, "var": vn, "site": tag,
-               "would": would if isinstance(would, (int, str, float)) else repr(would)}
+               "would": would if isinstance(would, (int, str, float)) else repr(would), "fragment": frag}
     msg, err, touched = guarded_parse(text, repl, {"SENTINEL": sentinel, "session": sentinel, "region": sentinel}, sentinel)
     if touched:
         part.violation("safe-mode-eval", site, witness,
                        f"[{tag}] safe=True evaluated text ({sentinel.n} sentinel touches, {_EVALS[0]} eval/exec calls, {evalprobe.hits()} probe "
-                       f"hits); outcome {'raised ' + repr(err) if err else 'returned a message'}; line: {text.split(chr(10) + '  ' + vn + ' ')[-1][:120]!r}")
+                       f"hits); outcome {'raised ' + repr(err) if err else 'returned a message'}; injected: {frag[:160]!r}")
         part.outcome(("safe-evaluated", tag))
         return
     if err is not None:
@@ -1132,6 +1132,28 @@ def _setup(seed: int, quick: bool):
     _BASE_GEN = msggen.Gen(seed, finite_only=True)
 
 
+def _order_for_display(run: Run, shown: int = 25):
+    """Presentation only (no violation is added or dropped): hmc.core prints the first 25 distinct (clause, site) pairs and the
+    mutant runner shows the tail of that.  With hundreds of open `:count0` sites the few safe-mode sites would never be printed,
+    so order the list as: other sites (non-count0 first) up to 25 - K, then the K safe-mode sites, then everything else."""
+    def key(v):
+        return v["clause"], v["site"]
+    safe = [v for v in run.violations if v["clause"] == "safe-mode-eval"]
+    if not safe:
+        return
+    k = len({key(v) for v in safe})
+    rest = [v for v in run.violations if v["clause"] != "safe-mode-eval"]
+    rest.sort(key=lambda v: ":count0" in v["site"])  # stable: non-count0 first
+    head, tail, seen = [], [], set()
+    for v in rest:
+        if key(v) in seen or len(seen) < max(0, shown - k):
+            seen.add(key(v))
+            head.append(v)
+        else:
+            tail.append(v)
+    run.violations[:] = head + safe + tail
+
+
 def run(run: Run):
     _setup(run.seed, run.tier == "quick")
     names = list(_G.templates)
@@ -1142,6 +1164,7 @@ def run(run: Run):
     units += [("rows", n) for n in names] + [("hdr", n) for n in msggen.HEADER_BASIS] + [("safe", n) for n in names]  # safe-mode last: see safe_site
     for d in pmap(_work, units, run.jobs, chunksize=1):
         run.merge(d)
+    _order_for_display(run)
     covered = {k[len("beautified:"):] for k in run.counters if k.startswith("beautified:")}
     for k in [k for k in run.counters if k.startswith("beautified:")]:
         del run.counters[k]
@@ -1206,5 +1229,5 @@ def replay(w):
         for label, expr, val in PAYLOADS:
             if w["site"].startswith(f"payload:{label}:"):
                 would = val
-        check_safe(part, w["site"], w["name"], w["text"], w["block"], w["index"], w["var"], would)
+        check_safe(part, w["site"], w["name"], w["text"], w["block"], w["index"], w["var"], would, w.get("fragment", ""))
     return list(part.viol.values())
